@@ -10,7 +10,7 @@ class Check(EngineCheck):
     module = "LLBuild.Props.C06"
     theorems = [E + "C06_start", E + "C06_prior", E + "C06_provide", E + "C06_inputs_available",
                 E + "C06_inputs_complete_and_clean", E + "C06_schedule_independent_value",
-                E + "engine_fingerprint_matches_model",
+                E + "C06_schedule_independent_value_eq", E + "C06_dsl_deterministic", E + "Clean_unique", E + "engine_fingerprint_matches_model",
                 H + "C06_handshake_shape_matches_code", H + "C06_no_lost_wakeup", H + "C06_mutual_exclusion",
                 H + "C06_handoff_counts", H + "C06_no_deadlock", H + "C06_lost_wakeup_without_recheck"]
     mix = [(0.5, {}), (0.5, {"threads": True})]
